@@ -26,11 +26,25 @@ KINDS = {
 }
 
 
+REFUSALS = {
+    "tunnel-refused": ("tunnel-h1", {"proxy": {"status": 403, "reason": "Forbidden", "body_len": 9}}),
+    "tunnel-refused-keepalive": ("tunnel-h1", {"proxy": {"status": 407, "reason": "Auth", "body_len": 0, "close": False}}),
+    "socks-refused": ("socks-h1", {"socks": {"reply": 5}}),
+    "socks-auth-refused": ("socks-auth-h1", {"socks": {"auth_status": 1}}),
+}
+for _k, (_base, _) in REFUSALS.items():
+    KINDS[_k] = KINDS[_base]
+
+
 def topo(kind, *, hosts=("a.test", "b.test", "c.test", "d.test"), plans=None, default_plan=None, proxy=None, socks=None, h2=None,
          pool_extra=None):
     """Return (pool_cfg, NetConfig, scheme). Origin endpoints for `hosts` are registered on ports 80/443/8080/8443."""
     pool_cfg, scheme, alpn = KINDS[kind]
     pool_cfg = dict(pool_cfg)
+    if kind in REFUSALS:
+        extra = REFUSALS[kind][1]
+        proxy = extra.get("proxy", proxy)
+        socks = extra.get("socks", socks)
     if pool_extra:
         pool_cfg.update(pool_extra)
     eps = dict(PROXY_EP)
